@@ -150,7 +150,38 @@ def run(ck, prog, ctx):
         for pos, st in hd.stmts():
             if st.k == "assign" and st.rv["k"] == "bin" and st.rv["op"] in ("Eq", "Ne"):
                 cmps.append((st.line, st.rv["l"], st.rv["r"]))
+        # a private helper that compares the two halves of a pair (`if_different(&(old, new))` does `pair.0 != pair.1`): the call compares
+        # what the pair's components derive from
+        pair_cmp = {}
+        for hb_ in prog.production():
+            if hb_.kind not in ("Fn", "AssocFn") or hb_.file != hd.file or hb_.exported or hb_.reachable or hb_.impl_trait or hb_.natural_loops():
+                continue
+            for _, ht in hb_.calls():
+                if ht.callee.trait == "std::cmp::PartialEq" and ht.callee.method in ("eq", "ne") and len(ht.args) == 2:
+                    comp = []
+                    for o_ in ht.args:
+                        src = set()
+                        for kind_, pos_, d_ in pv_c.defs(hb_).get(o_.place.local, []) if o_.place is not None and o_.place.is_local() else []:
+                            if kind_ == "assign" and d_.rv["k"] == "ref":
+                                fs = [e for e in d_.rv["place"].fields() if e != "*"]
+                                if len(fs) == 1 and fs[0][0] == "f" and 1 <= d_.rv["place"].local <= len(hb_.arg_names):
+                                    src.add((d_.rv["place"].local, fs[0][1]))
+                        comp.append(src)
+                    if len(comp[0]) == 1 and len(comp[1]) == 1:
+                        (p0, f0), (p1, f1) = next(iter(comp[0])), next(iter(comp[1]))
+                        if p0 == p1 and {f0, f1} == {"0", "1"}:
+                            pair_cmp[hb_.id] = p0
         seen_attr = {}
+        for bi, t in hd.calls():
+            pp = pair_cmp.get(t.callee.res or "")
+            if pp is not None and pp - 1 < len(t.args):
+                la, ra = pv_c.of_operand(hd, t.args[pp - 1], (("f", "0", "tuple"),)), pv_c.of_operand(hd, t.args[pp - 1], (("f", "1", "tuple"),))
+                lp, rp = params_of(la, hd.id), params_of(ra, hd.id)
+                at_l = {ACC[a[1].rsplit("::", 1)[-1]] for a in la if a[0] == "call" and a[1].startswith("term::hpoterm::HpoTerm::") and a[1].rsplit("::", 1)[-1] in ACC}
+                at_r = {ACC[a[1].rsplit("::", 1)[-1]] for a in ra if a[0] == "call" and a[1].startswith("term::hpoterm::HpoTerm::") and a[1].rsplit("::", 1)[-1] in ACC}
+                for x in at_l & at_r:
+                    if {frozenset(lp), frozenset(rp)} == {frozenset({1}), frozenset({2})}:
+                        seen_attr[x] = t.line
         for line, lo, ro in cmps:
             la, ra = pv_c.of_operand(hd, lo), pv_c.of_operand(hd, ro)
 
@@ -193,45 +224,10 @@ def run(ck, prog, ctx):
                 ck.ob("ROLE", "HpoTermDelta/%s/direct" % fld, okd, "%s subtracts %s from %s (both must be the DIRECT parents)" % (fld, " / ".join(str(sorted(u[3])) for u in used), " / ".join(str(sorted(u[2])) for u in used)), where=hd.where(st.line))
 
     # ------------------------------------------------------------------ AnnotationDelta
+    # `delta` is private: which of its parameters (or tuple components) carries the OLD / NEW name and term list is read off its callers
     ad = prog.body("ontology::comparison::AnnotationDelta::delta")
-    if ck.anchor("COVER", "AnnotationDelta::delta", ad, private=True):
-        agg = [s for _, s in ad.stmts() if s.k == "assign" and s.rv["k"] == "agg" and s.rv.get("adt", "").endswith("AnnotationDelta")]
-        if not agg:
-            ck.undecided("ROLE", "AnnotationDelta/lists", "struct construction not recognised", where=ad.where())
-        else:
-            st = agg[0]
-            subsA = subtractions(prog, pv, pvn, ad)
-            nmA = {frozenset({1}): "lhs", frozenset({2}): "rhs"}
-            for fld, want in (("added_terms", ({2}, {1})), ("removed_terms", ({1}, {2}))):
-                op = st.rv["ops"][st.rv["fields"].index(fld)]
-                at = pvn.of_operand(ad, op)
-                used = [subsA[a[4]] for a in at if a[0] == "call" and a[3] == ad.id and a[4] in subsA]
-                used = [(params_of(u["A"], ad.id), params_of(u["B"], ad.id), u["pol"]) for u in used]
-                used = [u for u in used if u[0] and u[1]]
-                if not used:
-                    ck.undecided("ROLE", "AnnotationDelta/" + fld, "%s is not built by a recognised set subtraction (difference / filter-not-contains / loop / private helper)" % fld, where=ad.where(st.line))
-                    continue
-                ok = all((u[0], u[1]) == want and u[2] == -1 for u in used)
-                ck.ob("ROLE", "AnnotationDelta/" + fld, bool(ok), "%s = %s" % (fld, " / ".join("items of %s kept iff %s contained in %s" % (nmA.get(frozenset(u[0]), sorted(u[0])), "not" if u[2] == -1 else "(positively)", nmA.get(frozenset(u[1]), sorted(u[1]))) for u in used)), where=ad.where(st.line))
-        # decision coverage
-        subsA_all = subtractions(prog, pv, pvn, ad)
-        got = set()
-        for bi in sorted(ad.reach):
-            x = ad.blocks[bi].term
-            if x.k != "switch":
-                continue
-            at = pv.of_operand(ad, x.discr)
-            for a in at:
-                if a[0] == "param" and a[1] == ad.id and a[2] == 3:
-                    fs = [e[1] for e in a[3] if e[0] == "f"]
-                    if fs:
-                        got.add("names.%s" % fs[0])
-            for a in pvn.of_operand(ad, x.discr):
-                if a[0] == "call" and a[3] == ad.id and a[4] in subsA_all:
-                    r = params_of(subsA_all[a[4]]["A"], ad.id)
-                    got.add("added" if r == {2} else "removed" if r == {1} else "?")
-        need = {"added", "removed", "names.0", "names.1"}
-        ck.ob("COVER", "AnnotationDelta/decision", need <= got, "the changed-decision of AnnotationDelta::delta depends on %s%s" % (sorted(got & need), "" if need <= got else "; missing %s" % sorted(need - got)), where=ad.where())
+    SIDE = {1: "lhs", 2: "rhs"}
+    role_maps = {}
     for nm in ("gene", "disease"):
         b = prog.body("ontology::comparison::AnnotationDelta::" + nm)
         if b is None or ad is None:
@@ -241,13 +237,95 @@ def run(ck, prog, ctx):
         from engines import check_required_steps
         check_required_steps(ck, "COVER", prog, b, [("decide through AnnotationDelta::delta", lambda t, _ad=ad: t.callee.res == _ad.id)])
         for bi, t in b.calls():
-            if t.callee.res == ad.id:
-                a0 = params_of(pv.of_operand(b, t.args[0]), b.id)
-                a1 = params_of(pv.of_operand(b, t.args[1]), b.id)
-                n0 = params_of(pv.of_operand(b, t.args[2], (("f", "0", "tuple"),)), b.id)
-                n1 = params_of(pv.of_operand(b, t.args[2], (("f", "1", "tuple"),)), b.id)
-                ok = a0 == {1} and a1 == {2} and n0 == {1} and n1 == {2}
-                ck.ob("ROLE", "AnnotationDelta::%s/args" % nm, ok, "AnnotationDelta::%s passes (lhs terms, rhs terms, (lhs name, rhs name))%s" % (nm, "" if ok else " in another order: %s %s %s %s" % (sorted(a0), sorted(a1), sorted(n0), sorted(n1))), where=b.where(t.line))
+            if t.callee.res != ad.id:
+                continue
+            rm = {}
+            for i, a in enumerate(t.args):
+                is_tuple = a.place is not None and a.place.is_local() and str(b.locals[a.place.local].get("s", "")).startswith("(")
+                for comp in (("0", "1", "2") if is_tuple else (None,)):
+                    at = pv.of_operand(b, a, (("f", comp, "tuple"),)) if comp is not None else pv.of_operand(b, a)
+                    sds = params_of(at, b.id)
+                    attrs = {x[1].rsplit("::", 1)[-1] for x in at if x[0] == "call" and x[3] == b.id and x[1].rsplit("::", 1)[-1] in ("name", "hpo_terms", "id")}
+                    # trait methods called on a type parameter (`D::name`) keep their trait path
+                    if sds and attrs:
+                        rm[(i + 1, comp)] = (frozenset(sds), frozenset(attrs))
+            role_maps[nm] = rm
+            have = {}
+            for key, (sd, at_) in rm.items():
+                if len(sd) == 1 and len(at_) == 1 and next(iter(at_)) in ("name", "hpo_terms"):
+                    have.setdefault((next(iter(sd)), next(iter(at_))), []).append(key)
+            want = [(1, "name"), (2, "name"), (1, "hpo_terms"), (2, "hpo_terms")]
+            ok = all(len(have.get(w, [])) == 1 for w in want)
+            mixed = [k for k, (sd, at_) in rm.items() if len(sd) > 1 and at_ & {"name", "hpo_terms"}]
+            ck.ob("ROLE", "AnnotationDelta::%s/args" % nm, ok and not mixed, "AnnotationDelta::%s hands delta %s%s" % (nm, ", ".join("%s.%s as %s" % (SIDE[w[0]], w[1], "/".join("arg %d%s" % (k[0], "" if k[1] is None else "." + k[1]) for k in have.get(w, [])) or "NOTHING") for w in want), "" if not mixed else "; an argument mixes both sides: %s" % mixed), where=b.where(t.line))
+    if len(role_maps) == 2:
+        ck.ob("ROLE", "AnnotationDelta/callers-agree", role_maps["gene"] == role_maps["disease"], "gene() and disease() hand their (old, new) data to delta in %s" % ("the same positions" if role_maps["gene"] == role_maps["disease"] else "DIFFERENT positions"))
+    role_of = {}
+    for rm in role_maps.values():
+        for key, (sd, at_) in rm.items():
+            if len(sd) == 1 and len(at_) == 1:
+                role_of[key] = (next(iter(sd)), next(iter(at_)))
+
+    def roles(atoms):
+        """(side, attribute) pairs that atoms of `delta` derive from"""
+        out = set()
+        for a in atoms:
+            if a[0] == "param" and ad is not None and a[1] == ad.id:
+                fs = [e[1] for e in a[3] if e[0] == "f" and e[2] == "tuple"]
+                r = role_of.get((a[2], fs[0] if fs else None)) or role_of.get((a[2], None))
+                if r is not None:
+                    out.add(r)
+        return out
+    if ck.anchor("COVER", "AnnotationDelta::delta", ad, private=True):
+        agg = [s_ for _, s_ in ad.stmts() if s_.k == "assign" and s_.rv["k"] == "agg" and s_.rv.get("adt", "").endswith("AnnotationDelta")]
+        if not role_of:
+            ck.undecided("ROLE", "AnnotationDelta/lists", "the callers of delta were not recognised: old / new roles of its parameters unknown", where=ad.where())
+        elif not agg:
+            ck.undecided("ROLE", "AnnotationDelta/lists", "struct construction not recognised", where=ad.where())
+        else:
+            st = agg[0]
+            subsA = subtractions(prog, pv, pvn, ad)
+            for fld, want in (("added_terms", (2, 1)), ("removed_terms", (1, 2))):
+                op = st.rv["ops"][st.rv["fields"].index(fld)]
+                at = pvn.of_operand(ad, op)
+                used = [subsA[a[4]] for a in at if a[0] == "call" and a[3] == ad.id and a[4] in subsA]
+                used = [(roles(u["A"]), roles(u["B"]), u["pol"]) for u in used]
+                used = [u for u in used if u[0] and u[1]]
+                if not used:
+                    ck.undecided("ROLE", "AnnotationDelta/" + fld, "%s is not built by a recognised set subtraction (difference / filter-not-contains / loop / private helper)" % fld, where=ad.where(st.line))
+                    continue
+                ok = all(u[0] == {(want[0], "hpo_terms")} and u[1] == {(want[1], "hpo_terms")} and u[2] == -1 for u in used)
+                ck.ob("ROLE", "AnnotationDelta/" + fld, bool(ok), "%s = %s" % (fld, " / ".join("items of %s kept iff %s contained in %s" % ("+".join("%s.%s" % (SIDE[x[0]], x[1]) for x in sorted(u[0])), "not" if u[2] == -1 else "(positively)", "+".join("%s.%s" % (SIDE[x[0]], x[1]) for x in sorted(u[1]))) for u in used)), where=ad.where(st.line))
+        # the stored pairs are (old, new): `changed_name()` / `n_terms()` hand them out in that order
+        if role_of and agg:
+            st = agg[0]
+            for fld, attr in (("names", "name"), ("n_terms", "hpo_terms")):
+                if fld not in st.rv["fields"]:
+                    continue
+                op = st.rv["ops"][st.rv["fields"].index(fld)]
+                r0, r1 = roles(pv.of_operand(ad, op, (("f", "0", "tuple"),))), roles(pv.of_operand(ad, op, (("f", "1", "tuple"),)))
+                if not r0 or not r1:
+                    ck.undecided("ROLE", "AnnotationDelta/%s-order" % fld, "what the two halves of `%s` derive from is not recognised" % fld, where=ad.where(st.line))
+                    continue
+                ok = r0 == {(1, attr)} and r1 == {(2, attr)}
+                ck.ob("ROLE", "AnnotationDelta/%s-order" % fld, ok, "the field `%s` is (%s, %s) - expected (old, new)" % (fld, "+".join("%s.%s" % (SIDE[x[0]], x[1]) for x in sorted(r0)), "+".join("%s.%s" % (SIDE[x[0]], x[1]) for x in sorted(r1))), where=ad.where(st.line))
+        # decision coverage
+        if role_of:
+            subsA_all = subtractions(prog, pv, pvn, ad)
+            got = set()
+            for bi in sorted(ad.reach):
+                x = ad.blocks[bi].term
+                if x.k != "switch":
+                    continue
+                for sd, at_ in roles(pv.of_operand(ad, x.discr)):
+                    if at_ == "name":
+                        got.add("names.%d" % (sd - 1))
+                for a in pvn.of_operand(ad, x.discr):
+                    if a[0] == "call" and a[3] == ad.id and a[4] in subsA_all:
+                        r = {sd for sd, at_ in roles(subsA_all[a[4]]["A"])}
+                        got.add("added" if r == {2} else "removed" if r == {1} else "?")
+            need = {"added", "removed", "names.0", "names.1"}
+            ck.ob("COVER", "AnnotationDelta/decision", need <= got, "the changed-decision of AnnotationDelta::delta depends on %s%s" % (sorted(got & need), "" if need <= got else "; missing %s" % sorted(need - got)), where=ad.where())
 
     # ---- accessors: a method named after a field returns that field, not a sibling of the same type
     ck.rule("GETTER", "an accessor `f()` / `f_mut()` of a struct with a field `f` (or its documented alias) derives its result from that field (DESIGN 3.9)")
